@@ -63,7 +63,12 @@ Label == /\ phase = 1 /\ phase' = 2 /\ UNCHANGED fam
          /\ lv' = BigV(gr') /\ ln' = BigN(gr')
 Spec == Init /\ [][Choose \/ Label]_vars
 Flags(G) == {"big", fam.shape, fam.pat} \cup (IF fam.dist # "none" THEN {"distparent"} ELSE {})
-Emit == phase = 2 => PrintT(ToJson([n |-> fam.len, kind |-> gr.kind, par |-> gr.par, st |-> gr.st, dist |-> gr.dist, supp |-> gr.supp,
+\* C13 on the families: pruning after the analysis removes exactly the 'or' / 'and' steps that are not viable or not
+\* necessary (GraphSM!Prunable on the labelled graph); everything else stays, with its labels and its remaining edges
+BigPrunable == {n \in Nodes(gr) : gr.kind[n] \in {"or", "and"} /\ (~lv[n] \/ ~ln[n])}
+\* spec-level sanity: sources are never pruned, and a kept step keeps at least the labels (viable, necessary)
+PruneSane == phase = 2 => \A n \in Nodes(gr) \ BigPrunable : IsSrc(gr, n) \/ (lv[n] /\ ln[n])
+Emit == phase = 2 => PrintT(ToJson([n |-> fam.len, prunable |-> BigPrunable, kind |-> gr.kind, par |-> gr.par, st |-> gr.st, dist |-> gr.dist, supp |-> gr.supp,
                                     V |-> lv, N |-> ln, flags |-> Flags(gr), family |-> fam]))
 \* the labelling satisfies the equations of the property
 Solution == phase = 2 => IsSolV(gr, lv) /\ IsSolN(gr, ln)
